@@ -892,6 +892,26 @@ func depLines(out *Out, fd *descriptorpb.FileDescriptorProto, src string) {
 			methods = append(methods, strings.TrimPrefix(m.GetInputType(), ".")+">"+strings.TrimPrefix(m.GetOutputType(), "."))
 		}
 	}
+	// extension declarations in flattened order: those of the file, then those nested in messages (pre-order)
+	var exts []string
+	addExts := func(xs []*descriptorpb.FieldDescriptorProto) {
+		for _, x := range xs {
+			t := strings.TrimPrefix(x.GetExtendee(), ".")
+			if tn := x.GetTypeName(); tn != "" {
+				t += ":" + strings.TrimPrefix(tn, ".")
+			}
+			exts = append(exts, t)
+		}
+	}
+	addExts(fd.Extension)
+	var walkExt func(ms []*descriptorpb.DescriptorProto)
+	walkExt = func(ms []*descriptorpb.DescriptorProto) {
+		for _, m := range ms {
+			addExts(m.Extension)
+			walkExt(m.NestedType)
+		}
+	}
+	walkExt(fd.MessageType)
 	ls := func(l []string) string {
 		if len(l) == 0 {
 			return "-"
@@ -910,6 +930,6 @@ func depLines(out *Out, fd *descriptorpb.FileDescriptorProto, src string) {
 	}
 	n := len(gotDeps)
 	out.Count("deptab_lines")
-	out.Line("C19,C12", "deptab "+ls(enums)+" "+ls(msgs)+" "+depTok+" "+ls(methods),
+	out.Line("C19,C12", "deptab "+ls(enums)+" "+ls(msgs)+" "+depTok+" "+ls(exts)+" "+ls(methods),
 		"ok "+ls(gotTypes)+" "+ls(gotDeps[:n-5])+" "+ls(gotDeps[n-5:]))
 }
